@@ -215,6 +215,7 @@ def _calibration(ctx, N, cls):
     br = [e for e in I.events if e["kind"] == "branch" and "time" in (e.get("labels") or ()) and _mentions_outside_phi(e["cond"], "ff")]
     site2 = ctx.site(P.method(cls, "_update_post_selection"))
     ctx.ob("TAINT-TIME", "exactly one branch of a selection step depends on the switching point", len(br) == 1, f"{[(e['short'], e['src']) for e in br]}", site2)
+    ctx.no_shape_conflicts("Shape", "one selection step: extents agree, no unguarded float index", I, 0, site2)
     heap = st.heap[o.obj.id]
     for a in ("selected_idx_", "X_selected_", "n_selected_", "dSL_", "hausdorff_at_select_"):
         v = heap[a]
